@@ -710,7 +710,10 @@ pub fn worker_main(a: WorkerArgs) -> i32 {
                             }
                             continue;
                         }
-                        // unknown failure: shrink (random stages), then report
+                        // unknown failure: shrink (random stages), then report — once per signature
+                        if acc.failures.iter().any(|f| f.sig == sig) {
+                            continue;
+                        }
                         let mut fail = Failure {
                             stage: stage.name.to_string(),
                             index,
@@ -945,6 +948,9 @@ pub fn run_property(prop: &'static Prop, tier: Tier, seed: u64, exe: &str) -> Ru
         let path = format!("{}/{}", verif_root(), k.repro);
         match replay_in_child(&cfg, &path, Some(&k.sig)) {
             ReplayResult::Fail(sig, _) if sig == k.sig => known_alive.push(k),
+            ReplayResult::Fail(sig, _) if known.iter().any(|x| x.sig == sig) => {
+                lines.push(format!("note: repro {} of known finding {} now fails with the (also listed) signature {}", k.repro, k.sig, sig));
+            }
             ReplayResult::Fail(sig, detail) => {
                 // the repro now fails differently: that is a new violation
                 merged.failures.push(Failure {
